@@ -60,9 +60,47 @@ func (m *MessageCopyFromGenerator) GenerateFields(g *j.Group) {
 		g.Add(j.Id("obj." + m).Op("=").Nil())
 	}
 
+	// Reset nullable embedded messages for the same reason: a parent is allocated again by its first
+	// known child, otherwise null attributes would leave the values of a previous call in place.
+	// Parents with list, map or message children are left alone, those children are assigned
+	// through the parent unconditionally.
+	for _, name := range m.resettableEmbeds() {
+		g.Add(j.Id("obj." + name).Op("=").Nil())
+	}
+
 	for _, f := range m.Fields {
 		g.Add(NewFieldCopyFromGenerator(f, m.i).Generate())
 	}
+}
+
+// resettableEmbeds returns field names of the nullable embedded messages all of whose fields are primitive
+func (m *MessageCopyFromGenerator) resettableEmbeds() []string {
+	names := make([]string, 0)
+	primitive := make(map[string]bool)
+
+	for _, f := range m.Fields {
+		if !f.ParentIsOptionalEmbed {
+			continue
+		}
+
+		name := f.ParentIsOptionalEmbedFieldName
+		if _, ok := primitive[name]; !ok {
+			names = append(names, name)
+			primitive[name] = true
+		}
+		if f.Kind != PrimitiveKind {
+			primitive[name] = false
+		}
+	}
+
+	result := make([]string, 0, len(names))
+	for _, name := range names {
+		if primitive[name] {
+			result = append(result, name)
+		}
+	}
+
+	return result
 }
 
 // Generate generates CopyFrom fragment for a field of different kind
